@@ -779,6 +779,23 @@ def discharge_call(prog, ctx, fk, b, i, t, n, R, roles, reph_fns, sub13, sub15, 
             if contains_call(recv, lambda m: m.startswith("config::Config::get_") and ("database" in m or "suffix" in m or "autocorrect_data" in m)) is not None:
                 return True, "D-contract: bundled data directory (C10 scopes the *user* files; a configured data directory must hold the three data files)"
             return False, "unwrap in Data::new on a value that is not bundled-data I/O"
+        if fdat.get("kind") == "Closure" and (fdat.get("root") or fdat.get("parent")) == "data::Data::new":
+            # a local reader closure of the loader (`|path| read(path).unwrap()`): every call of it in the loader is handed a bundled-data path
+            pb = prog.body(fdat.get("parent") or fdat.get("root"))
+            sites = []
+            for (bb2, t2) in pb.calls():
+                n2 = callee_name(t2)
+                if not (n2 == fk or n2.endswith(("Fn>::call", "FnMut>::call_mut", "FnOnce>::call_once"))):
+                    continue
+                a0 = strip_refs(pb.expr_operand(t2["args"][0]))
+                if a0.k == "agg" and str(a0.a[0]) == "closure:" + fk:
+                    sites.append(pb.expr_operand(t2["args"][1]) if len(t2["args"]) > 1 else None)
+            is_path = lambda m: m.startswith("config::Config::get_") and ("database" in m or "suffix" in m or "autocorrect_data" in m)
+            reads_param = all(strip_refs(x).k != "call" or not is_path(strip_refs(x).a[0]) for x in [recv]) and \
+                any(x.k == "arg" and x.a[0] >= 2 for x in recv.walk())
+            if sites and reads_param and all(sx is not None and contains_call(sx, is_path) is not None for sx in sites):
+                return True, "D-contract: bundled data directory (a reader closure of the loader, called %d× with the configured data paths)" % len(sites)
+            return False, "unwrap in a closure of Data::new on a value that is not bundled-data I/O at every call of the closure"
         if f.get("output") in ("Self", builders.fixed_ty(prog)) and owner == builders.fixed_ty(prog):
             if contains_call(recv, lambda m: m.endswith("Config::get_layout")) is not None:
                 return True, "D-contract: a fixed-layout context is created with a layout file that parses (set_layout_file validated the path)"
